@@ -28,12 +28,12 @@ Proof.
   now rewrite N, andb_true_r.
 Qed.
 
-Lemma merge_source_forallb f base s :
-  neutral f -> forallb f (merge_source base s) = forallb f (source_conds s) && forallb f base.
+Lemma merge_source_forallb f pns base s :
+  neutral f -> forallb f (merge_source pns base s) = forallb f (source_conds pns s) && forallb f base.
 Proof.
   intros N. unfold merge_source, source_conds. rewrite !insert_front_forallb by assumption. cbn.
   rewrite andb_true_r.
-  destruct (f (mk KSrcPrincipal _ _ _)), (f (mk KReqPrincipal _ _ _)), (f (mk KSrcNamespace _ _ _)),
+  destruct (f (mk KSrcPrincipal _ _ _)), (f (mk KReqPrincipal _ _ _)), (f (mk (KSrcSvcAccount _) _ _ _)), (f (mk KSrcNamespace _ _ _)),
            (f (mk KRemoteIP _ _ _)), (f (mk KSrcIP _ _ _)); reflexivity.
 Qed.
 
@@ -57,15 +57,15 @@ Proof.
   rewrite forallb_app, Hl. cbn. now rewrite Hk.
 Qed.
 
-Lemma merge_source_kind base s :
-  forallb (fun c => prin_kind (ck c)) base = true -> forallb (fun c => prin_kind (ck c)) (merge_source base s) = true.
+Lemma merge_source_kind pns base s :
+  forallb (fun c => prin_kind (ck c)) base = true -> forallb (fun c => prin_kind (ck c)) (merge_source pns base s) = true.
 Proof. intros H. unfold merge_source. repeat apply insert_front_kind; try reflexivity. exact H. Qed.
 
 Lemma merge_operation_kind base o :
   forallb (fun c => perm_kind (ck c)) base = true -> forallb (fun c => perm_kind (ck c)) (merge_operation base o) = true.
 Proof. intros H. unfold merge_operation. repeat apply insert_front_kind; try reflexivity. exact H. Qed.
 
-Lemma when_kind_side key b k : when_kind key = Some (b, k) -> if b then perm_kind k = true else prin_kind k = true.
+Lemma when_kind_side pns key b k : when_kind pns key = Some (b, k) -> if b then perm_kind k = true else prin_kind k = true.
 Proof.
   unfold when_kind.
   repeat match goal with |- context [if ?c then _ else _] => destruct c end;
@@ -73,31 +73,31 @@ Proof.
 Qed.
 
 (* the `when` loop *)
-Lemma new_when_spec f ws : neutral f -> forall bperm bprin,
+Lemma new_when_spec f pns ws : neutral f -> forall bperm bprin,
   forallb (fun c => perm_kind (ck c)) bperm = true -> forallb (fun c => prin_kind (ck c)) bprin = true ->
-  match new_when ws bperm bprin with
-  | None => forallb (fun w => match when_kind (w_key w) with Some _ => true | None => false end) ws = false
+  match new_when pns ws bperm bprin with
+  | None => forallb (fun w => match when_kind pns (w_key w) with Some _ => true | None => false end) ws = false
   | Some (bp, bi) =>
-      forallb (fun w => match when_kind (w_key w) with Some _ => true | None => false end) ws = true /\
+      forallb (fun w => match when_kind pns (w_key w) with Some _ => true | None => false end) ws = true /\
       forallb (fun c => perm_kind (ck c)) bp = true /\ forallb (fun c => prin_kind (ck c)) bi = true /\
       forallb f bp && forallb f bi =
       forallb f bperm && forallb f bprin &&
-      forallb (fun w => match when_cond w with Some c => f c | None => false end) ws
+      forallb (fun w => match when_cond pns w with Some c => f c | None => false end) ws
   end.
 Proof.
   intros N. induction ws as [|w ws IH]; intros bperm bprin K1 K2; cbn.
   - repeat split; try assumption. now rewrite andb_true_r.
-  - unfold when_cond. destruct (when_kind (w_key w)) as [[b k]|] eqn:E; [|reflexivity].
-    pose proof (when_kind_side _ _ _ E) as Hs. destruct b.
+  - unfold when_cond. destruct (when_kind pns (w_key w)) as [[b k]|] eqn:E; [|reflexivity].
+    pose proof (when_kind_side _ _ _ _ E) as Hs. destruct b.
     + specialize (IH (append_last bperm k (w_key w) (w_values w) (w_not_values w)) bprin
                      (append_last_kind perm_kind _ _ _ _ _ Hs K1) K2).
-      destruct (new_when ws _ bprin) as [[bp bi]|]; [|exact IH].
+      destruct (new_when pns ws _ bprin) as [[bp bi]|]; [|exact IH].
       destruct IH as (A & B & C & D). repeat split; try assumption. cbn.
       rewrite D, append_last_forallb by assumption.
       destruct (forallb f bperm), (f (mk k _ _ _)), (forallb f bprin); reflexivity.
     + specialize (IH bperm (append_last bprin k (w_key w) (w_values w) (w_not_values w)) K1
                      (append_last_kind prin_kind _ _ _ _ _ Hs K2)).
-      destruct (new_when ws bperm _) as [[bp bi]|]; [|exact IH].
+      destruct (new_when pns ws bperm _) as [[bp bi]|]; [|exact IH].
       destruct IH as (A & B & C & D). repeat split; try assumption. cbn.
       rewrite D, append_last_forallb by assumption.
       destruct (forallb f bperm), (f (mk k _ _ _)), (forallb f bprin); reflexivity.
@@ -117,33 +117,34 @@ Qed.
 
 (* the lists of a Model, for a neutral predicate *)
 Section NewModel.
+  Variable pns : string.
   Variable ru : rule.
   Variable f : cond -> bool.
   Hypothesis N : neutral f.
 
   Lemma new_model_spec :
-    match new_model ru with
-    | None => when_known ru = false
+    match new_model pns ru with
+    | None => when_known pns ru = false
     | Some m =>
-        when_known ru = true /\
+        when_known pns ru = true /\
         forallb (fun rl => forallb (fun c => perm_kind (ck c)) rl) (m_permissions m) = true /\
         forallb (fun rl => forallb (fun c => prin_kind (ck c)) rl) (m_principals m) = true /\
         m_permissions m <> [] /\ m_principals m <> [] /\
         (* some list satisfies f everywhere *)
         existsb (forallb f) (m_permissions m) && existsb (forallb f) (m_principals m) =
-          (is_nil (from ru) || existsb (fun s => forallb f (source_conds s)) (from ru)) &&
+          (is_nil (from ru) || existsb (fun s => forallb f (source_conds pns s)) (from ru)) &&
           (is_nil (to ru) || existsb (fun o => forallb f (operation_conds o)) (to ru)) &&
-          forallb (fun w => match when_cond w with Some c => f c | None => false end) (when ru) /\
+          forallb (fun w => match when_cond pns w with Some c => f c | None => false end) (when ru) /\
         (* every list satisfies f everywhere *)
         forallb (forallb f) (m_permissions m) && forallb (forallb f) (m_principals m) =
-          forallb (fun s => forallb f (source_conds s)) (from ru) &&
+          forallb (fun s => forallb f (source_conds pns s)) (from ru) &&
           forallb (fun o => forallb f (operation_conds o)) (to ru) &&
-          forallb (fun w => match when_cond w with Some c => f c | None => false end) (when ru)
+          forallb (fun w => match when_cond pns w with Some c => f c | None => false end) (when ru)
     end.
   Proof.
     unfold new_model, when_known.
-    pose proof (new_when_spec f (when ru) N [] [] eq_refl eq_refl) as H.
-    destruct (new_when (when ru) [] []) as [[bp bi]|]; [|exact H].
+    pose proof (new_when_spec f pns (when ru) N [] [] eq_refl eq_refl) as H.
+    destruct (new_when pns (when ru) [] []) as [[bp bi]|]; [|exact H].
     destruct H as (A & B & C & D). cbn in D. cbn [m_permissions m_principals].
     split; [assumption|].
     assert (Kperm : forallb (fun rl => forallb (fun c => perm_kind (ck c)) rl)
@@ -152,7 +153,7 @@ Section NewModel.
       rewrite merge_operation_kind by assumption. cbn. rewrite forallb_map.
       apply forallb_forall. intros; now apply merge_operation_kind. }
     assert (Kprin : forallb (fun rl => forallb (fun c => prin_kind (ck c)) rl)
-                      (if is_nil (from ru) then [bi] else map (merge_source bi) (from ru)) = true).
+                      (if is_nil (from ru) then [bi] else map (merge_source pns bi) (from ru)) = true).
     { destruct (from ru); cbn; [now rewrite C|].
       rewrite merge_source_kind by assumption. cbn. rewrite forallb_map.
       apply forallb_forall. intros; now apply merge_source_kind. }
@@ -167,11 +168,11 @@ Section NewModel.
         rewrite (existsb_ext_in _ (fun o => forallb f (operation_conds o) && forallb f bp))
           by (intros; now apply merge_operation_forallb).
         apply existsb_andb_const. }
-      assert (E2 : existsb (forallb f) (if is_nil (from ru) then [bi] else map (merge_source bi) (from ru)) =
-                   (is_nil (from ru) || existsb (fun s => forallb f (source_conds s)) (from ru)) && forallb f bi).
+      assert (E2 : existsb (forallb f) (if is_nil (from ru) then [bi] else map (merge_source pns bi) (from ru)) =
+                   (is_nil (from ru) || existsb (fun s => forallb f (source_conds pns s)) (from ru)) && forallb f bi).
       { destruct (from ru) as [|s froms] eqn:T; [cbn; now rewrite orb_false_r|].
         cbn [is_nil orb]. rewrite existsb_map.
-        rewrite (existsb_ext_in _ (fun s => forallb f (source_conds s) && forallb f bi))
+        rewrite (existsb_ext_in _ (fun s => forallb f (source_conds pns s) && forallb f bi))
           by (intros; now apply merge_source_forallb).
         apply existsb_andb_const. }
       rewrite E1, E2.
@@ -184,11 +185,11 @@ Section NewModel.
         rewrite (forallb_ext_in _ (fun o => forallb f (operation_conds o) && forallb f bp))
           by (intros; now apply merge_operation_forallb).
         apply forallb_andb_const. discriminate. }
-      assert (E2 : forallb (forallb f) (if is_nil (from ru) then [bi] else map (merge_source bi) (from ru)) =
-                   forallb (fun s => forallb f (source_conds s)) (from ru) && forallb f bi).
+      assert (E2 : forallb (forallb f) (if is_nil (from ru) then [bi] else map (merge_source pns bi) (from ru)) =
+                   forallb (fun s => forallb f (source_conds pns s)) (from ru) && forallb f bi).
       { destruct (from ru) as [|s froms] eqn:T; [cbn; now rewrite andb_true_r|].
         cbn [is_nil]. rewrite forallb_map.
-        rewrite (forallb_ext_in _ (fun s => forallb f (source_conds s) && forallb f bi))
+        rewrite (forallb_ext_in _ (fun s => forallb f (source_conds pns s) && forallb f bi))
           by (intros; now apply merge_source_forallb).
         apply forallb_andb_const. discriminate. }
       rewrite E1, E2.
@@ -197,23 +198,23 @@ Section NewModel.
 End NewModel.
 
 (* trust-domain alias rewriting leaves the rule's model unchanged *)
-Definition alias_free (tds : list string) (ru : rule) : Prop :=
-  forall m, new_model ru = Some m -> migrate_model tds m = m.
+Definition alias_free (tds : list string) (pns : string) (ru : rule) : Prop :=
+  forall m, new_model pns ru = Some m -> migrate_model tds m = m.
 
 (* ------------------------------------------------------------------ one rule *)
 
-Lemma compile_rule_spec o allow ru r :
+Lemma compile_rule_spec o allow pns ru r :
   leaves_ok (tcp o) (negb (use_filter_state o)) r ->
-  alias_free (trust_domains o) ru ->
-  match compile_rule o allow ru with
-  | Some p => eval_rpolicy p r = rule_view_matches (tcp o) allow ru r
-  | None => rule_view_matches (tcp o) allow ru r = false
+  alias_free (trust_domains o) pns ru ->
+  match compile_rule o allow pns ru with
+  | Some p => eval_rpolicy p r = rule_view_matches (tcp o) allow pns ru r
+  | None => rule_view_matches (tcp o) allow pns ru r = false
   end.
 Proof.
   intros L AF. unfold compile_rule, rule_view_matches.
-  pose proof (new_model_spec ru _ (neutral_sem allow (tcp o) r)) as Hs.
-  pose proof (new_model_spec ru _ (neutral_ok allow (tcp o))) as Ho.
-  destruct (new_model ru) as [m|] eqn:NM.
+  pose proof (new_model_spec pns ru _ (neutral_sem allow (tcp o) r)) as Hs.
+  pose proof (new_model_spec pns ru _ (neutral_ok allow (tcp o))) as Ho.
+  destruct (new_model pns ru) as [m|] eqn:NM.
   - rewrite (AF m NM).
     destruct Hs as (WK & K1 & K2 & N1 & N2 & Es & _). destruct Ho as (_ & _ & _ & _ & _ & _ & Eo).
     rewrite WK. cbn [negb].
@@ -221,8 +222,8 @@ Proof.
     destruct allow.
     + (* ALLOW *)
       unfold ok_of in Eo, G. unfold view_of in Es, G.
-      match type of G with (if ?b then _ else _) => assert (EO : b = rule_conds_ok (tcp o) ru) by exact Eo end.
-      rewrite EO in G. destruct (rule_conds_ok (tcp o) ru); cbn [andb].
+      match type of G with (if ?b then _ else _) => assert (EO : b = rule_conds_ok (tcp o) pns ru) by exact Eo end.
+      rewrite EO in G. destruct (rule_conds_ok (tcp o) pns ru); cbn [andb].
       * destruct G as (p & -> & E). rewrite E.
         unfold rule_matches, source_matches, operation_matches, when_sem.
         rewrite andb_comm in Es. rewrite andb_comm. rewrite <- Es.
@@ -246,25 +247,25 @@ Qed.
 (* ------------------------------------------------------------------ policies and filters *)
 
 Definition alias_free_policies (tds : list string) (ps : list policy) : Prop :=
-  forall p ru, In p ps -> In ru (p_rules p) -> alias_free tds ru.
+  forall p ru, In p ps -> In ru (p_rules p) -> alias_free tds (p_ns p) ru.
 
-Lemma compile_rules_spec o allow r pid rs : 
+Lemma compile_rules_spec o allow r pid pns rs : 
   leaves_ok (tcp o) (negb (use_filter_state o)) r ->
-  (forall ru, In ru rs -> alias_free (trust_domains o) ru) ->
+  (forall ru, In ru rs -> alias_free (trust_domains o) pns ru) ->
   forall i,
-  existsb (fun np => eval_rpolicy (snd np) r) (compile_rules o allow pid i rs) =
-  existsb (fun ru => rule_view_matches (tcp o) allow ru r) rs.
+  existsb (fun np => eval_rpolicy (snd np) r) (compile_rules o allow pid pns i rs) =
+  existsb (fun ru => rule_view_matches (tcp o) allow pns ru r) rs.
 Proof.
   intros L. induction rs as [|ru rs IH]; intros AF i; cbn; [reflexivity|].
-  pose proof (compile_rule_spec o allow ru r L (AF ru (or_introl eq_refl))) as H.
-  destruct (compile_rule o allow ru); cbn.
+  pose proof (compile_rule_spec o allow pns ru r L (AF ru (or_introl eq_refl))) as H.
+  destruct (compile_rule o allow pns ru); cbn.
   - rewrite H, IH; [reflexivity|]. intros; apply AF; now right.
   - rewrite H, IH; [reflexivity|]. intros; apply AF; now right.
 Qed.
 
 Lemma compile_policy_spec o a r p :
   leaves_ok (tcp o) (negb (use_filter_state o)) r ->
-  (forall ru, In ru (p_rules p) -> alias_free (trust_domains o) ru) ->
+  (forall ru, In ru (p_rules p) -> alias_free (trust_domains o) (p_ns p) ru) ->
   is_action a p = true ->
   existsb (fun np => eval_rpolicy (snd np) r)
           (compile_policy o (match a with ALLOW => true | _ => false end) p) =
